@@ -106,7 +106,7 @@ func flagDefault(fd *ast.FuncDecl, flag string) ast.Expr {
 	return res
 }
 
-func litQ(e ast.Expr) (string, bool) {
+func mcpLitQ(e ast.Expr) (string, bool) {
 	lit, ok := e.(*ast.BasicLit)
 	if !ok || (lit.Kind != token.FLOAT && lit.Kind != token.INT) {
 		return "", false
@@ -114,7 +114,7 @@ func litQ(e ast.Expr) (string, bool) {
 	return coqQ(constant.MakeFromLiteral(lit.Value, lit.Kind, 0))
 }
 
-func litZ(e ast.Expr) (string, bool) {
+func mcpLitZ(e ast.Expr) (string, bool) {
 	lit, ok := e.(*ast.BasicLit)
 	if !ok || lit.Kind != token.INT {
 		return "", false
@@ -137,12 +137,12 @@ func init() {
 			fail("mcp: expected 6 contains(analyses, \"..\") tests in HandleAnalyzeCode, found %v", names)
 		}
 		fmt.Fprintf(&b, "Definition mcp_analysis_names : list string := %s.\n", coqStringList(names))
-		if s, ok := litZ(compositeField(h, "AnalyzeUseCaseConfig", "MinComplexity")); ok {
+		if s, ok := mcpLitZ(compositeField(h, "AnalyzeUseCaseConfig", "MinComplexity")); ok {
 			fmt.Fprintf(&b, "Definition mcp_MinComplexity : Z := %s.\n", s)
 		} else {
 			fail("mcp: MinComplexity literal not found")
 		}
-		if s, ok := litQ(compositeField(h, "AnalyzeUseCaseConfig", "CloneSimilarity")); ok {
+		if s, ok := mcpLitQ(compositeField(h, "AnalyzeUseCaseConfig", "CloneSimilarity")); ok {
 			fmt.Fprintf(&b, "Definition mcp_CloneSimilarity : Q := %s.\n", s)
 		} else {
 			fail("mcp: CloneSimilarity literal not found")
@@ -159,12 +159,12 @@ func init() {
 		}
 		fmt.Fprintf(&b, "Definition cli_analysis_names : list string := %s.\n", coqStringList(cnames))
 		nf := findFunc(c, "analyze.go", "AnalyzeCommand", "CreateCobraCommand")
-		if s, ok := litZ(flagDefault(nf, "min-complexity")); ok {
+		if s, ok := mcpLitZ(flagDefault(nf, "min-complexity")); ok {
 			fmt.Fprintf(&b, "Definition cli_default_min_complexity : Z := %s.\n", s)
 		} else {
 			fail("cli: --min-complexity default not found")
 		}
-		if s, ok := litQ(flagDefault(nf, "clone-threshold")); ok {
+		if s, ok := mcpLitQ(flagDefault(nf, "clone-threshold")); ok {
 			fmt.Fprintf(&b, "Definition cli_default_clone_threshold : Q := %s.\n", s)
 		} else {
 			fail("cli: --clone-threshold default not found")
